@@ -81,6 +81,11 @@ TFileWide ==
           /\ Ev.r.kind = "Hash"
           /\ Ev.r.r = GenFinalize(fv, g2, DefaultOptions)
     /\ UNCHANGED <<s, v>>
+\* hash_file on a file whose content changes underneath it: only the KIND of outcome is judged (never a panic)
+TFileAny ==
+    /\ IsEvent("file_any") /\ s.pc = "Idle"
+    /\ Ev.kind \in {"Hash", "IOError"}
+    /\ UNCHANGED <<s, v>>
 TFileErr ==
     /\ IsEvent("file_err") /\ s.pc = "Idle"
     /\ Ev.r.kind = "IOError"
@@ -103,7 +108,7 @@ TExample ==
 \* one output line per file argument, none without arguments
 TExampleCount == IsEvent("example_count") /\ s.pc = "Idle" /\ Ev.lines = Ev.files /\ UNCHANGED <<s, v>>
 
-TraceNext == TExampleCount \/ TBegin \/ TRead \/ TEnd \/ TFile \/ TFileData \/ TFileWide \/ TFileErr \/ TExample
+TraceNext == TExampleCount \/ TBegin \/ TRead \/ TEnd \/ TFile \/ TFileData \/ TFileWide \/ TFileAny \/ TFileErr \/ TExample
 TraceSpec == l = 1 /\ s = Idle /\ v = VNormal /\ [][TraceNext]_vars
 
 TraceAccepted ==
